@@ -1,16 +1,16 @@
-\* quick exhaustive: model constants (4 locators, batches of 3), trees of up to 9 headers, every disturbance once
+\* quick exhaustive: model constants (4 locators, batches of 3), trees of up to 8 headers, every disturbance once
 SPECIFICATION MCSpec
 CONSTANTS
   MaxLocators = 4
   MaxHeaders = 3
-  Lens = {0, 1, 2, 3, 5}
+  Lens = {0, 1, 2, 4}
   Diffs = {1, 2}
-  MaxIds = 9
+  MaxIds = 8
   MaxReorgs = 1
   MaxResets = 1
   MaxByz = 1
   Variant = "code"
   FullChainUpTo = 0
 VIEW View
-INVARIANTS TypeOK TreeFormsOK StoredOnTree SyncLeHead LocatorShape BackoffQuality AnswerContiguous RoundsBound Converged NotBehind
+INVARIANTS TypeOK StoredOnTree SyncLeHead LocatorShape BackoffQuality AnswerContiguous RoundsBound Converged NotBehind
 PROPERTIES MCHeadMonotone MCHonestAccepted MCRejectLeavesState MCNeverForgets MCRoundProgress
